@@ -249,4 +249,69 @@ example : valueSet [.int 0, .bool false] = [.int 0] ∧ Obj.memPy (.bool false) 
 
 end Examples
 
+/-! ## deep hierarchies: "a configured subclass of a member counts" is about `issubclass`, not about direct bases -/
+
+/-- **C15_same_iff_chain.**  Over ANY class hierarchy (`direct a b`: `b` is one of `a.__bases__`; `P.sub` = `issubclass` =
+its reflexive-transitive closure): `v` comes back itself exactly when its class is configured and lies ANY number of
+inheritance steps (zero included) below a configured class (or NewType base) that `U` names — whether or not the classes
+in between are configured, members of `U`, or exist in the configured set at all — or `v` matches a literal. -/
+theorem C15_same_iff_chain (P : PS) (direct : Nat → Nat → Bool) (hsub : ∀ a c, P.sub a c = true ↔ SubStar direct a c)
+    (U : List Member) (cl : Nat) (v : Obj) :
+    passthrough P U cl v = .same ↔
+      ((∃ m ∈ U, ∃ b, m.base = some b ∧ b ∈ P.S ∧ cl ∈ P.S ∧ SubStar direct cl b) ∨ LitMatch U cl v) := by
+  rw [C15_same_iff]
+  constructor
+  · rintro (⟨m, hm, b, hb, hS, (rfl | ⟨hc, hs⟩)⟩ | hl)
+    · exact Or.inl ⟨m, hm, cl, hb, hS, hS, .refl cl⟩
+    · exact Or.inl ⟨m, hm, b, hb, hS, hc, (hsub cl b).mp hs⟩
+    · exact Or.inr hl
+  · rintro (⟨m, hm, b, hb, hS, hc, hs⟩ | hl)
+    · exact Or.inl ⟨m, hm, b, hb, hS, Or.inr ⟨hc, (hsub cl b).mpr hs⟩⟩
+    · exact Or.inr hl
+
+/-- **C15_deep_subclass.**  In particular a value whose (configured) class is a grandchild, or deeper, of a member of `U`
+is returned: an `IntEnum` member for `int | …` (`Level → IntEnum → int`), a `datetime` subclass for `date | …`. -/
+theorem C15_deep_subclass (P : PS) (direct : Nat → Nat → Bool) (hsub : ∀ a c, SubStar direct a c → P.sub a c = true)
+    (U : List Member) (m : Member) (b cl : Nat) (hm : m ∈ U) (hb : m.base = some b) (hS : b ∈ P.S) (hc : cl ∈ P.S)
+    (chain : SubStar direct cl b) (v : Obj) : passthrough P U cl v = .same :=
+  (C15_same_iff P U cl v).mpr (Or.inl ⟨m, hm, b, hb, hS, Or.inr ⟨hc, hsub cl b chain⟩⟩)
+
+section DeepExamples
+
+/-- `Level(IntEnum)`: 12 → 20 (`IntEnum`, not configured) → 2 (`int`); `bool` 1 → 2 -/
+def c15DeepDirect : Nat → Nat → Bool := fun a b => (a == 12 && b == 20) || (a == 20 && b == 2) || (a == 1 && b == 2)
+
+/-- `issubclass` on that hierarchy -/
+def c15DeepSub : Nat → Nat → Bool := fun a c => a == c || (a == 12 && (c == 20 || c == 2)) || (a == 20 && c == 2) || (a == 1 && c == 2)
+
+/-- S = {int, Level}, U = `int | str` (`str` not configured: the hand-over member) -/
+def c15DeepP : PS := { S := [2, 12], sub := c15DeepSub }
+
+theorem c15DeepSub_closure (a c : Nat) (h : SubStar c15DeepDirect a c) : c15DeepSub a c = true := by
+  induction h with
+  | refl a => simp [c15DeepSub]
+  | step hd _ ih =>
+    rename_i a b c
+    simp only [c15DeepDirect, Bool.or_eq_true, Bool.and_eq_true, beq_iff_eq] at hd
+    simp only [c15DeepSub, Bool.or_eq_true, Bool.and_eq_true, beq_iff_eq] at ih ⊢
+    omega
+
+/-- non-vacuity of `C15_deep_subclass`: `Level.X` (two levels below `int`, the class in between not configured) for
+`int | str` comes back itself -/
+example : passthrough c15DeepP [.cls 2, .cls 4] 12 (.int 1) = .same :=
+  C15_deep_subclass c15DeepP c15DeepDirect c15DeepSub_closure _ (.cls 2) 2 12 (by simp) rfl (by simp [c15DeepP])
+    (by simp [c15DeepP]) (.step (b := 20) (by decide) (.step (b := 2) (by decide) (.refl 2))) _
+
+/-- **C15_direct_bases_witness** (negative witness; seeded change "the augmentation step reads `__bases__`").  With direct
+bases instead of `issubclass` the grandchild is handed to `str` — and with no other member it is rejected — while a
+direct child (`bool`) is still accepted, which is all the shipped configurations contain. -/
+theorem C15_direct_bases_witness :
+    passthroughDirect c15DeepP c15DeepDirect [.cls 2, .cls 4] 12 (.int 1) = .spill [.cls 4] ∧
+    passthroughDirect c15DeepP c15DeepDirect [.cls 2, .lit [(4, .str "a")]] 12 (.int 1) = .reject ∧
+    passthrough c15DeepP [.cls 2, .cls 4] 12 (.int 1) = .same ∧
+    passthroughDirect { c15DeepP with S := [2, 1] } c15DeepDirect [.cls 2, .cls 4] 1 (.bool true) = .same := by
+  refine ⟨?_, ?_, ?_, ?_⟩ <;> decide
+
+end DeepExamples
+
 end CattrsModel
